@@ -159,7 +159,10 @@ AsgArith(op) == CASE op = "+=" -> "+" [] op = "-=" -> "-" [] op = "*=" -> "*" []
                   [] op = "^=" -> "^" [] op = "|=" -> "|"
 
 (* ------------------------------------------------------------------ evaluation *)
-DevNames == {"BadLiteralIsZero", "VarTextNotEvaluated", "AssignOpNoDeref", "UntakenBranchNotParsed"}
+\* M is the set of deviations in force ({} = bash).  The first four act inside Eval, the last two
+\* on the contexts (see CtxOutcome).
+DevNames == {"BadLiteralIsZero", "VarTextNotEvaluated", "AssignOpNoDeref", "UntakenBranchNotParsed",
+             "ExpansionErrorStatus0", "LetQuotedNotEvaluated"}
 R(v, env, u)     == [v |-> v, env |-> env, err |-> FALSE, oos |-> FALSE, used |-> u]
 RErr(env, u)     == [v |-> 0, env |-> env, err |-> TRUE,  oos |-> FALSE, used |-> u]
 ROos(env, u)     == [v |-> 0, env |-> env, err |-> FALSE, oos |-> TRUE,  used |-> u]
@@ -189,7 +192,7 @@ RECURSIVE Eval(_, _, _, _, _), ReadVar(_, _, _, _, _)
 \* value of variable v in evaluation mode
 ReadVar(v, env, ne, M, fuel) ==
   IF ne THEN R(0, env, {})
-  ELSE IF M THEN R(DevFollow(v, env, 100), env, IF PlainText(env[v]) THEN {} ELSE {"VarTextNotEvaluated"})
+  ELSE IF "VarTextNotEvaluated" \in M THEN R(DevFollow(v, env, 100), env, IF PlainText(env[v]) THEN {} ELSE {"VarTextNotEvaluated"})
   ELSE LET val == env[v] IN
        IF val.k = "unset" THEN R(0, env, {})
        ELSE IF val.k = "int" THEN R(val.n, env, {})
@@ -197,16 +200,16 @@ ReadVar(v, env, ne, M, fuel) ==
             IF tm.kind = "empty" THEN R(0, env, {})
             ELSE IF tm.kind = "bad" THEN RErr(env, {})
             ELSE IF fuel = 0 THEN RErr(env, {})          \* expression recursion level exceeded
-            ELSE Eval(tm.tree, env, FALSE, FALSE, fuel - 1)
+            ELSE Eval(tm.tree, env, FALSE, M, fuel - 1)
 
 Eval(t, env, ne, M, fuel) ==
   CASE t.k = "lit" ->
          IF t.ok THEN R(t.v, env, {})
-         ELSE IF M THEN R(0, env, {"BadLiteralIsZero"}) ELSE RErr(env, {})
+         ELSE IF "BadLiteralIsZero" \in M THEN R(0, env, {"BadLiteralIsZero"}) ELSE RErr(env, {})
     [] t.k = "var" -> ReadVar(t.v, env, ne, M, fuel)
     [] t.k = "inc" ->
          LET old == IF ne THEN R(0, env, {})
-                    ELSE IF M THEN R(DevDirect(t.v, env), env,
+                    ELSE IF "AssignOpNoDeref" \in M THEN R(DevDirect(t.v, env), env,
                                      IF PlainText(env[t.v]) THEN {} ELSE {"AssignOpNoDeref"})
                     ELSE ReadVar(t.v, env, ne, M, fuel) IN
          IF Stop(old) THEN old
@@ -221,9 +224,9 @@ Eval(t, env, ne, M, fuel) ==
          LET a == Eval(t.a, env, ne, M, fuel) IN
          IF Stop(a) THEN a
          ELSE LET skip == (t.op = "&&" /\ a.v = 0) \/ (t.op = "||" /\ a.v # 0) IN
-              IF skip /\ M THEN
+              IF skip /\ "UntakenBranchNotParsed" \in M THEN
                 \* mvdan/sh does not look at the right operand at all
-                LET b == Eval(t.b, a.env, TRUE, FALSE, fuel) IN
+                LET b == Eval(t.b, a.env, TRUE, {}, fuel) IN
                 R(B01(t.op = "||"), a.env, a.used \cup (IF b.err THEN {"UntakenBranchNotParsed"} ELSE {}))
               ELSE LET b == Eval(t.b, a.env, ne \/ skip, M, fuel) IN
                    IF Stop(b) THEN [b EXCEPT !.used = a.used \cup b.used]
@@ -233,15 +236,15 @@ Eval(t, env, ne, M, fuel) ==
          IF Stop(a) THEN a
          ELSE LET b == Eval(t.b, a.env, ne, M, fuel) IN
               IF Stop(b) THEN [b EXCEPT !.used = a.used \cup b.used]
-              ELSE FromA(Arith(t.op, a.v, b.v, ne, M), b.env, a.used \cup b.used)
+              ELSE FromA(Arith(t.op, a.v, b.v, ne, M # {}), b.env, a.used \cup b.used)
     [] t.k = "tern" ->
          LET c == Eval(t.c, env, ne, M, fuel) IN
          IF Stop(c) THEN c
-         ELSE IF M THEN
+         ELSE IF "UntakenBranchNotParsed" \in M THEN
            LET taken == IF c.v # 0 THEN t.a ELSE t.b
                other == IF c.v # 0 THEN t.b ELSE t.a
                r == Eval(taken, c.env, ne, M, fuel)
-               o == Eval(other, c.env, TRUE, FALSE, fuel) IN
+               o == Eval(other, c.env, TRUE, {}, fuel) IN
            [r EXCEPT !.used = c.used \cup r.used \cup (IF o.err THEN {"UntakenBranchNotParsed"} ELSE {})]
          ELSE
            \* both branches are read, in order; the one not taken in no-evaluation mode
@@ -249,17 +252,17 @@ Eval(t, env, ne, M, fuel) ==
            IF Stop(a) THEN a
            ELSE LET b == Eval(t.b, a.env, ne \/ c.v # 0, M, fuel) IN
                 IF Stop(b) THEN b
-                ELSE R(IF c.v # 0 THEN a.v ELSE b.v, b.env, {})
+                ELSE R(IF c.v # 0 THEN a.v ELSE b.v, b.env, c.used \cup a.used \cup b.used)
     [] t.k = "asg" ->
          \* the old value is read before the right-hand side is evaluated (not for plain =)
          LET old == IF t.op = "=" \/ ne THEN R(0, env, {})
-                    ELSE IF M THEN R(DevDirect(t.v, env), env,
+                    ELSE IF "AssignOpNoDeref" \in M THEN R(DevDirect(t.v, env), env,
                                      IF PlainText(env[t.v]) THEN {} ELSE {"AssignOpNoDeref"})
                     ELSE ReadVar(t.v, env, ne, M, fuel) IN
          IF Stop(old) THEN old
          ELSE LET a == Eval(t.a, old.env, ne, M, fuel) IN
               IF Stop(a) THEN [a EXCEPT !.used = old.used \cup a.used]
-              ELSE LET n == IF t.op = "=" THEN AOk(a.v) ELSE Arith(AsgArith(t.op), old.v, a.v, ne, M) IN
+              ELSE LET n == IF t.op = "=" THEN AOk(a.v) ELSE Arith(AsgArith(t.op), old.v, a.v, ne, M # {}) IN
                    IF n.oos \/ n.err THEN FromA(n, a.env, old.used \cup a.used)
                    ELSE R(n.v, IF ne THEN a.env ELSE Store(a.env, t.v, n.v), old.used \cup a.used)
 
@@ -385,16 +388,29 @@ Outcome(c, r) ==
                        rc |-> B01(r.err), i |-> <<>>]
     [] c = "for"   -> [inscope |-> TRUE, print |-> <<>>, rc |-> B01(r.err), i |-> IF r.err THEN <<>> ELSE <<r.v>>]
 (* mvdan/sh, per context:
-   Dev_ExpansionErrorStatus0: an arithmetic error inside a word expansion ($(( )), ${a[ ]}) or in the
+   ExpansionErrorStatus0: an arithmetic error inside a word expansion ($(( )), ${a[ ]}) or in the
    for (( )) header is reported on stderr but leaves status 0.
-   Dev_LetQuotedNotEvaluated: let "e" takes the quoted text like a variable value (VarTextNotEvaluated):
+   LetQuotedNotEvaluated: let "e" takes the quoted text like a variable value that is not evaluated:
    only a lone literal or name has a value, anything else is 0 and has no effect. *)
-DevOutcome(c, r) ==
-  IF c \in {"echo", "sub", "for"} THEN [Outcome(c, r) EXCEPT !.rc = 0] ELSE Outcome(c, r)
 LetDev(t, env) ==
   IF t.k = "lit" THEN R(IF t.ok THEN t.v ELSE 0, env, {})
   ELSE IF t.k = "var" THEN R(DevFollow(t.v, env, 100), env, {})
   ELSE R(0, env, {})
+\* outcome of context c under the deviations M, given rd = Eval(t, env, FALSE, M, Fuel):
+\* what is shown, the final variables, and the names of the deviations that mattered
+CtxOutcome(c, t, env, rd, M) ==
+  LET res == IF c = "let" /\ "LetQuotedNotEvaluated" \in M THEN LetDev(t, env) ELSE rd
+      o   == Outcome(c, res)
+      st0 == c \in {"echo", "sub", "for"} /\ res.err /\ "ExpansionErrorStatus0" \in M
+  IN [inscope |-> o.inscope, print |-> o.print, rc |-> IF st0 THEN 0 ELSE o.rc, i |-> o.i,
+      oos |-> res.oos, err |-> res.err, env |-> res.env,
+      names |-> IF c = "let" /\ "LetQuotedNotEvaluated" \in M THEN {"LetQuotedNotEvaluated"}
+                ELSE res.used \cup (IF st0 THEN {"ExpansionErrorStatus0"} ELSE {})]
+\* the deviation sets the binding tries, in this order: everything known today; what is left when
+\* the evaluator fixes (proposed_fixes/C20-1..3) are applied; what is inherent
+DevSets == << DevNames,
+              {"UntakenBranchNotParsed", "ExpansionErrorStatus0"},
+              {"UntakenBranchNotParsed"} >>
 
 (* ------------------------------------------------------------------ laws and emission *)
 RECURSIVE UsesVar(_)
@@ -407,18 +423,17 @@ UsesVar(t) ==
 EnvShow(env) == [i \in 1..3 |-> LET val == env[Vars[i]] IN
                    IF val.k = "txt" THEN [k |-> "txt", n |-> 0, s |-> TextMenu[val.t].s]
                    ELSE [k |-> val.k, n |-> val.n, s |-> ""]]
-Res(r) == [v |-> r.v, err |-> r.err, oos |-> r.oos, env |-> EnvShow(r.env)]
+Show(o) == [o EXCEPT !.env = EnvShow(o.env)]
 Case(t, e) ==
   LET env == EnvMenu[e]
-      r   == Eval(t, env, FALSE, FALSE, Fuel)
-      rd  == Eval(t, env, FALSE, TRUE, Fuel)
-      rn  == Eval(t, env, TRUE, FALSE, Fuel)
-      ld  == LetDev(t, env)
-  IN [e |-> e, env |-> EnvShow(env), r |-> Res(r),
-      dev |-> Res(rd) @@ [used |-> rd.used],
-      letdev |-> Res(ld),
-      out |-> [c \in 1..Len(Ctxs) |-> Outcome(Ctxs[c], r)],
-      devout |-> [c \in 1..Len(Ctxs) |-> IF Ctxs[c] = "let" THEN Outcome("let", ld) ELSE DevOutcome(Ctxs[c], rd)],
+      r   == Eval(t, env, FALSE, {}, Fuel)
+      rd  == Eval(t, env, FALSE, DevSets[1], Fuel)
+      rn  == Eval(t, env, TRUE, {}, Fuel)
+  IN [e |-> e, env |-> EnvShow(env), err |-> r.err, oos |-> r.oos,
+      out |-> [c \in 1..Len(Ctxs) |-> Show(CtxOutcome(Ctxs[c], t, env, r, {}))],
+      devs |-> [d \in 1..Len(DevSets) |->
+                 LET rx == IF d = 1 THEN rd ELSE Eval(t, env, FALSE, DevSets[d], Fuel) IN
+                 [c \in 1..Len(Ctxs) |-> Show(CtxOutcome(Ctxs[c], t, env, rx, DevSets[d]))]],
       \* laws of the contract itself
       law |-> /\ rn.env = env                              \* no-evaluation mode never writes
               /\ (r.err \/ r.oos \/ \A v \in {"x", "y", "z"} : r.env[v] = env[v] \/ r.env[v].k = "int")
@@ -428,8 +443,8 @@ Case(t, e) ==
 \* leave no trace (checked on the tree of the state for every environment)
 LazyLaw(t, env) ==
   t.k = "bin" /\ t.op \in {"&&", "||"} =>
-    LET a == Eval(t.a, env, FALSE, FALSE, Fuel)
-        r == Eval(t, env, FALSE, FALSE, Fuel) IN
+    LET a == Eval(t.a, env, FALSE, {}, Fuel)
+        r == Eval(t, env, FALSE, {}, Fuel) IN
     (~Stop(a) /\ ~Stop(r) /\ ((t.op = "&&" /\ a.v = 0) \/ (t.op = "||" /\ a.v # 0))) => r.env = a.env
 
 Vec(t) ==
